@@ -4,10 +4,10 @@ import time
 from framework.checklib import CorrResult
 from framework import coqrun
 from harness import gen, passcorr
-from translator import t1_operators
+from translator import t1_operators, t15_passes
 
 ID = 'C03'
-TRANSLATORS = [t1_operators.translate]
+TRANSLATORS = [t1_operators.translate, t15_passes.translate]
 PROPERTY_FILE = 'Properties/C03.v'
 THEOREMS = ['C03_remove_redundant_gates', 'C03_remove_redundant_gates_inputs', 'C03_merge_unary_operators',
             'C03_merge_duplicate_gates', 'C03_merge_equivalent_gates', 'C03_pipeline', 'C03_cleanup',
@@ -16,7 +16,7 @@ THEOREMS = ['C03_remove_redundant_gates', 'C03_remove_redundant_gates_inputs', '
             'C03_remove_redundant_gates_total', 'C03_merge_unary_operators_total', 'C03_merge_duplicate_gates_total',
             'C03_merge_equivalent_gates_total', 'C03_pipeline_total', 'C03_cleanup_total',
             'C03_merge_equivalent_gates_three_valued_refuted', 'C03_merge_unary_operators_arity_needed',
-            'C03_example_hypotheses', 'C03_example_runs']
+            'C03_passes_regenerated', 'C03_example_hypotheses', 'C03_example_runs']
 PARTIAL = {}
 LEVEL_TEXT = ('every clause of the property is a Coq theorem about the executable model of the four passes and of the '
               'Transformer pipeline machinery, for ALL well-formed circuits with accepted operand counts: each of '
@@ -32,8 +32,23 @@ LEVEL_TEXT = ('every clause of the property is a Coq theorem about the executabl
               'all pipelines are total (never raise) on such circuits. "The argument is not modified" holds by construction '
               'in the immutable model and is checked on the implementation by the harness (dump before/after). The '
               'hand-written model is tied to /repo on every run by comparing the complete output circuit (gate order, '
-              'labels, operands, users, inputs, outputs) of every pass and of random pipelines on generated circuits')
-LEVEL_NOTE = ('Coq kernel + vm_compute; hand-written model of the passes and of transformer.py (Model/Passes.v), of the '
+              'labels, operands, users, inputs, outputs) of every pass and of random pipelines on generated circuits; and the '
+              'pass ALGORITHMS are regenerated from the source on every run: translator T15 turns every _transform of '
+              'minimization/simplification/*.py (closures with nonlocal state, the consume(circuit.dfs(hooks)) idiom, the '
+              'signature dict of MergeDuplicateGates, the grouping and the shared _Keep objects of MergeEquivalentGates) '
+              'into Gallina statement by statement (likewise cleanup, the reduction loop of '
+              'Transformer.linearize_reduce_transformers and the class tables of the transformers), and '
+              'C03_passes_regenerated proves each regenerated function equal to the hand model for every circuit')
+LEVEL_NOTE = ('Coq kernel + vm_compute; model of the four passes (Model/Passes.v) proved equal to the functions that translator '
+              'T15 regenerates from minimization/simplification/*.py on every run (trusted: the translator, its fixed prelude '
+              '- sorted as insertion sort by String.leb, dicts as association lists, a heap for the _Keep dataclass - and the '
+              'reading of consume(circuit.dfs(hooks)) as a fold of the hooks over the event log of the traversal model, '
+              'which T10 regenerates and C20 proves); pipeline machinery: cleanup, the reduction loop of '
+              'linearize_reduce_transformers, the __idempotent__ flags and the pre / post transformer lists of the '
+              'constructors are regenerated too (Generated/PipelineGen.v) and the model is proved consistent with them, '
+              'while linearize_transformers / as_distinct / apply_transformers / transform / the pipe operator / the '
+              '__eq__ methods of transformer.py remain hand-modelled (dynamic dispatch over classes, recursive '
+              'generators, reflected __eq__: correspondence only); hand-written model of the '
               'traversals (C20 theorems are used for the emission order) and of evaluation (C01 soundness and completeness are used for '
               'MergeEquivalentGates and get_truth_table); correspondence harness. Hypotheses: WF c (the C02 invariant) and '
               'arity_ok c (every non-INPUT gate has an operand count its operator accepts; without it evaluation raises and '
@@ -44,7 +59,8 @@ LEVEL_NOTE = ('Coq kernel + vm_compute; hand-written model of the passes and of 
 TECHNIQUE = ('Coq proof: one generic rebuild-with-remap lemma (rank induction on the rebuilt circuit) instantiated per pass '
              'with a fold invariant (identity / parity-parent dictionaries / first gate with the same canonical signature / '
              'truth-table group representative), C20 post-order for totality, induction on the linearised pipeline; exact '
-             'output-circuit correspondence with the implementation')
+             'output-circuit correspondence with the implementation; source-to-Gallina regeneration of the pass algorithms '
+             '(T15) with equality proofs (simulation of the signature dict / the _Keep heap against the model tables)')
 TRUSTED = []
 ASSUMPTIONS = []
 
